@@ -1,7 +1,9 @@
 package props
 
 import (
+	"encoding/json"
 	"fmt"
+	"os"
 	"reflect"
 	"regexp"
 	"strings"
@@ -10,6 +12,7 @@ import (
 	"github.com/Vedant9500/WTF/internal/database"
 	"github.com/Vedant9500/WTF/internal/nlp"
 	"github.com/Vedant9500/WTF/verifharness/gen"
+	"github.com/Vedant9500/WTF/verifharness/proc"
 	"github.com/Vedant9500/WTF/verifharness/ref"
 	"github.com/Vedant9500/WTF/verifharness/stat"
 	"pgregory.net/rapid"
@@ -20,6 +23,9 @@ import (
 var c06NLPWords = []string{"find", "search", "show", "list", "create", "make", "delete", "remove", "compress", "extract", "install", "run", "copy", "move", "kill", "edit",
 	"file", "files", "directory", "folder", "process", "network", "ip", "port", "repo", "commit", "permission", "contents", "zip", "tar",
 	"the", "to", "a", "in", "how", "go", "up", "see", "look", "without opening", "manage", "windows", "view", "read", "text", "config", "running"}
+
+// further words the hint collectors look for (actions, targets and keywords of internal/nlp)
+var c06ClueWords = []string{"change", "modify", "open", "editor", "archive", "archives", "download", "upload", "log", "logs", "disk", "space", "usage", "replace", "remote", "package", "packages", "server", "unpack", "untar", "unzip", "decompress", "backup", "rename", "duplicate", "locate", "display", "print", "terminate", "stop", "start", "connection", "connections", "interface", "storage", "analyze", "follow", "tail", "sort", "cut", "text", "string", "strings", "user", "users", "rights", "transfer", "sync", "clone", "inside", "new", "empty", "all", "old"}
 
 var c06HintTools = []string{"tar", "zip", "gzip", "unzip", "7z", "mkdir", "rmdir", "find", "grep", "locate", "ls", "rm", "cp", "mv", "cat", "less", "ps", "kill", "top", "chmod", "chown", "curl", "wget", "df", "du", "touch", "ip", "ifconfig", "ping", "ssh", "apt", "brew", "sed", "awk", "tail", "head"}
 
@@ -152,13 +158,98 @@ func isSubsequence(sub, xs []string) bool {
 	return i == len(sub)
 }
 
+// c06AnalysisString renders an analysis and its expanded term list for comparison across processes.
+func c06AnalysisString(a *nlp.ProcessedQuery) string {
+	return fmt.Sprintf("%+q | %+q", fmt.Sprintf("%+v", *a), a.GetEnhancedKeywords())
+}
+
+func init() {
+	// child: analyse the texts of a JSON file in reverse order, print the analyses in file order
+	proc.RegisterHelper("c06analyse", func(args []string) int {
+		if len(args) != 1 {
+			return 96
+		}
+		data, err := os.ReadFile(args[0])
+		var texts []string
+		if err != nil || json.Unmarshal(data, &texts) != nil {
+			return 96
+		}
+		out := make([]string, len(texts))
+		p := nlp.NewQueryProcessor()
+		for i := len(texts) - 1; i >= 0; i-- {
+			out[i] = c06AnalysisString(p.ProcessQuery(texts[i]))
+		}
+		enc, _ := json.Marshal(out)
+		fmt.Println(string(enc))
+		return 0
+	})
+}
+
+// c06FlushBatch compares this process's analyses of texts with those of a fresh child process.
+func c06FlushBatch(history, texts, here []string, analysed int) string {
+	f := gen.TempPath(".json")
+	defer os.Remove(f)
+	enc, _ := json.Marshal(texts)
+	if err := os.WriteFile(f, enc, 0o644); err != nil {
+		return "harness: " + err.Error()
+	}
+	r := proc.Run(proc.Cmd{Helper: "c06analyse", Args: []string{f}, FSize: -1})
+	var fresh []string
+	if r.ExitCode != 0 || r.TimedOut || json.Unmarshal([]byte(r.Stdout), &fresh) != nil || len(fresh) != len(texts) {
+		return fmt.Sprintf("harness: analysis helper failed: exit %d, %d bytes of output", r.ExitCode, len(r.Stdout))
+	}
+	for i := range texts {
+		if fresh[i] != here[i] {
+			saveCase("C06", "analysis-history", map[string]any{"test": "TestC06_Analysis", "history": history, "batch": texts, "differs_at": i, "here": here[i], "fresh_process_reverse_order": fresh[i]})
+			return fmt.Sprintf("analysis of %q depends on what was analysed before: this process (text %d of the batch, after about %d other analyses) gives\n  %s\na fresh process that meets the batch in reverse order gives\n  %s", texts[i], i, analysed, here[i], fresh[i])
+		}
+	}
+	return ""
+}
+
 func TestC06_Analysis(t *testing.T) {
 	rec := stat.For("C06")
 	rec.Rule("analysis invariants on generated query strings: ProcessQuery twice (same and fresh processor) deep-equal; GetEnhancedKeywords has no duplicates and starts with the extracted keywords; the user's own keyword-bearing words, in first-occurrence order, form a subsequence of the extracted keywords.")
 	p := nlp.NewQueryProcessor()
+	analysed := 0
+	// every text analysed here is analysed again by a fresh child process, 3000 at a time and in
+	// REVERSE order: whatever trace one analysis leaves behind for a later one (in this process, which
+	// has analysed thousands of texts, or in the child, which meets them the other way round) shows
+	var history, batchTexts, batchHere []string
+	var rc struct{ History, Batch []string }
+	if replayCase("C06", "analysis-history", &rc) {
+		// replay of a stored history: the same texts in the same order in this process, the batch in reverse in a child
+		for _, q := range rc.History {
+			p.ProcessQuery(q).GetEnhancedKeywords()
+		}
+		for _, q := range rc.Batch {
+			batchHere = append(batchHere, c06AnalysisString(p.ProcessQuery(q)))
+		}
+		if msg := c06FlushBatch(rc.History, rc.Batch, batchHere, len(rc.History)+len(rc.Batch)); msg != "" {
+			t.Fatalf("%s", msg)
+		}
+		return
+	}
+	defer func() {
+		if len(batchTexts) > 0 && !t.Failed() {
+			if msg := c06FlushBatch(history, batchTexts, batchHere, analysed); msg != "" {
+				t.Errorf("%s", msg)
+			}
+		}
+	}()
 	rapid.Check(t, func(t *rapid.T) {
 		word := rapid.OneOf(rapid.SampledFrom(c06NLPWords), rapid.SampledFrom(c06NLPWords), gen.Word(), gen.UWord(true))
 		q := gen.TextOf(word, 0, 14).Draw(t, "q")
+		if rapid.IntRange(0, 3).Draw(t, "short-clue") == 0 {
+			// two to four words, nearly all of them words the hint tables react to: the texts in which
+			// exactly one or two hint groups fire
+			clue := rapid.OneOf(rapid.SampledFrom(c06NLPWords), rapid.SampledFrom(c06NLPWords), rapid.SampledFrom(c06ClueWords), rapid.SampledFrom(c06ClueWords), rapid.SampledFrom(gen.NLPWords))
+			q = strings.Join(rapid.SliceOfN(clue, 1, 4).Draw(t, "q-clue"), " ")
+		}
+		if rapid.IntRange(0, 7).Draw(t, "language-words") == 0 {
+			// short texts made only of words the language stage reacts to (and their inflected forms)
+			q = gen.TextOf(rapid.OneOf(rapid.SampledFrom(gen.NLPWords), rapid.SampledFrom(gen.NLPWords), gen.Inflected()), 2, 7).Draw(t, "q-lang")
+		}
 		if rapid.IntRange(0, 5).Draw(t, "many-words") == 0 {
 			// a pasted sentence or two: dozens of distinct words, every one of them the user's own
 			many := rapid.OneOf(rapid.SampledFrom(gen.NLPWords), rapid.SampledFrom(gen.NLPWords), rapid.StringMatching(`[a-z]{3,9}`), rapid.SampledFrom(c06NLPWords))
@@ -172,6 +263,25 @@ func TestC06_Analysis(t *testing.T) {
 		c := nlp.NewQueryProcessor().ProcessQuery(q)
 		if !reflect.DeepEqual(a, b) || !reflect.DeepEqual(a, c) {
 			t.Fatalf("analysing %q twice gives different analyses:\n%+v\n%+v\n%+v", q, a, b, c)
+		}
+		analysed++
+		if !strings.ContainsRune(q, 0) {
+			batchTexts, batchHere = append(batchTexts, q), append(batchHere, c06AnalysisString(a))
+		}
+		// eight more short clue texts per case, analysed only for the history comparison below
+		clueWord := rapid.OneOf(rapid.SampledFrom(c06NLPWords), rapid.SampledFrom(c06ClueWords))
+		for _, x := range rapid.SliceOfN(rapid.SliceOfN(clueWord, 2, 4), 8, 8).Draw(t, "clue-texts") {
+			xt := strings.Join(x, " ")
+			batchTexts, batchHere = append(batchTexts, xt), append(batchHere, c06AnalysisString(p.ProcessQuery(xt)))
+			analysed++
+		}
+		if len(batchTexts) >= 3000 {
+			if msg := c06FlushBatch(history, batchTexts, batchHere, analysed); msg != "" {
+				t.Fatalf("%s", msg)
+			}
+			rec.Label("fresh-process-batches")
+			history = append(history, batchTexts...)
+			batchTexts, batchHere = nil, nil
 		}
 		enh := a.GetEnhancedKeywords()
 		if e2 := c.GetEnhancedKeywords(); !reflect.DeepEqual(enh, e2) {
